@@ -66,6 +66,7 @@ type Check struct {
 	ExpectSat bool // cover / canary: must NOT be unsat
 	Raw       string // complete stand-alone query (pure QF_BV lemma)
 	TimeoutMs int    // per-obligation timeout override
+	NoAssume  bool   // do not add the goal to the context of later checks (independent postconditions)
 	Info      string
 	Path      string
 	Src       string
